@@ -294,6 +294,44 @@ def user_elements_with_empty_pseudo_list(v: List[int]) -> bool:
         return False
 
 
+PROMOTE = [
+    ("M", [("M", {"M": 1}, 0), ("MH2+", {"M": 1, "H": 2}, 1), ("#M2O", {"M": 2, "O": 1}, 0), ("Mg", {"Mg": 1}, 0)]),
+    ("X", [("X", {"X": 1}, 0), ("XH", {"X": 1, "H": 1}, 0), ("HX-", {"H": 1, "X": 1}, -1), ("CO", {"C": 1, "O": 1}, 0)]),
+    ("CR", [("CR", {"CR": 1}, 0), ("CRO2+", {"CR": 1, "O": 2}, 1), ("C", {"C": 1}, 0), ("HCR", {"H": 1, "CR": 1}, 0)]),
+    ("g", [("gC", {"g": 1, "C": 1}, 0), ("g", {"g": 1}, 0), ("Hg+", {"H": 1, "g": 1}, 1), ("Mg", {"Mg": 1}, 0)]),
+]
+
+
+def pseudo_element_promoted_to_element(v: List[int]) -> bool:
+    """
+    pre: len(v) == 3 and 0 <= v[0] < 4 and 0 <= v[1] < 4 and 0 <= v[2] < 3
+    post: _ == True
+    """
+    # add_known_elements on a symbol that the pseudo-element list holds: from then on the symbol is an element (it
+    # counts in the composition) and no longer a pseudo element, whatever else is added in the same or a later call
+    a, b, how = prelude.concrete(v)
+    with prelude.NoTracing():
+        _setup()
+        sym, names = PROMOTE[a]
+        elems0 = list(Species.known_elements())
+        pseudo0 = list(Species.known_pseudoelements())
+        if how == 0:
+            Species.add_known_elements([sym])
+        elif how == 1:
+            Species.add_known_elements(["Zn", sym, "H"])
+        else:
+            Species.add_known_elements([sym])
+            Species.add_known_elements([sym, "Zn"])
+        elems, pseudo = list(Species.known_elements()), list(Species.known_pseudoelements())
+        if elems.count(sym) != 1 or sym in pseudo:
+            return False
+        if [e for e in elems if e not in (sym, "Zn")] != elems0 or [p for p in pseudo0 if p != sym] != pseudo:
+            return False
+        name, ec, q = names[b]
+        sp = Species(name)
+        return dict(sp.element_count) == ec and sp.charge == q and bool(sp.is_surface) == name.startswith("#")
+
+
 BAD = ["H2x", "Hx", "xH", "H?", "2H", "H2O!", "C_2", "h2", "He 2", "Q", "H2+o", "H.2", "H-2", "CO@", "Zz"]
 
 
